@@ -101,6 +101,9 @@ class SiteModel:
         if isinstance(e, ast.Call) and isinstance(e.func, ast.Attribute) and e.func.attr in ("values", "items", "keys") \
                 and not e.args:
             return self.origins(fn, e.func.value, depth)
+        if isinstance(e, ast.Call) and isinstance(e.func, ast.Name) and e.func.id in ("list", "tuple", "sorted", "reversed", "iter") \
+                and len(e.args) == 1:
+            return self.origins(fn, e.args[0], depth)
         if isinstance(e, ast.Name):
             if depth > 4:
                 return ["?"]
@@ -160,7 +163,10 @@ class SiteModel:
                     except AnalysisError:
                         continue
                     if e.id in amap and depth < 3:
-                        res += [o for o in self.origins(caller, amap[e.id], depth + 2) if o != "?"]
+                        if caller.qualname == fn.qualname:
+                            continue      # a recursive call passes (a slice of) the same parameter on
+                        res += [o for o in self.origins(caller, amap[e.id], depth + 2)
+                                if o != "?" and not o.startswith("param:")]
                 if res:
                     return sorted(set(res))
                 return [f"param:{e.id}"]
